@@ -69,7 +69,7 @@ def discover_entry_points(ctx):
 
 
 def plan(tier):
-    return {"cases": 4000 if tier == "quick" else 150000, "shards": 8 if tier == "quick" else 14,
+    return {"cases": 20000 if tier == "quick" else 600000, "shards": 8 if tier == "quick" else 14,
             "min_nontrivial": 20, "timeout": 600 if tier == "quick" else 2400,
             "require": {"forbidden_requests": 2000, "permitted_runs": 500, "entry:execute_tool_call": 300,
                         "entry:metabolize_auto": 300, "entry:metabolize_forced": 300, "entry:llm_loop": 300,
